@@ -12,7 +12,7 @@
    scratch held in cmux / automorphism_add / ...).  None = the call panics.
 
    The second half of the file is spec level: value of a column on the torus as an integer scaled by 2^P,
-   `phase s ct = ct[0] + sum ct[i+1] (*) s_i` exact, and the deterministic worst-case envelope of the gadget product. *)
+   `phase s ct = ct[0] + sum ct[i+1] (x) s_i` exact, and the deterministic worst-case envelope of the gadget product. *)
 From PV Require Import Base.MachineInt Model.Znx Model.Limbs Model.Flat Model.Ring Model.Poly Model.DftAbs.
 Open Scope Z_scope.
 
@@ -85,10 +85,69 @@ Definition keyswitch_internal (n cols_out R : nat) (res0 : cols_t) (a : cols_t) 
   | None => None
   end.
 
+(* vec_znx_big_normalize_cross of the NTT120 family (reference/ntt120/vec_znx_big.rs): the same algorithm as
+   Limbs.normalize_cross at width 128, EXCEPT that the partial first limb is shifted with a plain arithmetic shift
+   (`nfc_mul_pow2_assign`: x >> take, floor) where the i64 kernel `znx_mul_power_of_two` rounds.  Copied from
+   Model/Limbs.v with that one change (the rest is shared: cross_inner, carry_phase, top_phase, ...). *)
+Definition normalize_cross_ntt (rb ab : Z) (off : Z) (a r0 : list Z) : option (list Z) :=
+  let w := 128 in
+  let rsz := length r0 in let asz := length a in
+  let a_tot := zn asz * ab in let r_tot := zn rsz * rb in
+  let '(lsh, lo) := split_offset ab off in
+  let res_end_bit := clampZ (- lo * ab) 0 r_tot in
+  let res_start_bit := clampZ (a_tot - lo * ab) 0 r_tot in
+  let a_end_bit := clampZ (lo * ab) 0 a_tot in
+  let a_start_bit := clampZ (r_tot + lo * ab) 0 a_tot in
+  let res_end := Z.to_nat (res_end_bit / rb) in
+  let res_start := Z.to_nat (div_ceil res_start_bit rb) in
+  let a_end := Z.to_nat (a_end_bit / ab) in
+  let a_start := Z.to_nat (div_ceil a_start_bit ab) in
+  let rz := zeros rsz in
+  if Nat.eqb res_start 0 then Some rz else
+  let a_out := (asz - a_start)%nat in
+  let ac0 := carry_phase w ab lsh a asz a_out in
+  let mid := (a_start - a_end)%nat in
+  let s0 := {| c_res := rz; c_anorm := 0; c_acarry := ac0; c_rcarry := 0; c_atake := 0; c_racc := rb; c_rlimb := (res_start - 1)%nat |} in
+  let fuel := (Z.to_nat ab + Z.to_nat rb + 4)%nat in
+  let '(s, brk, bad) :=
+    fold_left (fun (acc : cstate * bool * bool) j =>
+      let '(s, brk, bad) := acc in
+      if brk || bad then acc else
+      let a_limb := (a_start - j - 1)%nat in
+      let '(an, ac) := middle_step w true ab lsh 0 (nthZ a a_limb) (c_acarry s) in
+      let s1 := {| c_res := c_res s; c_anorm := an; c_acarry := ac; c_rcarry := c_rcarry s; c_atake := ab;
+                   c_racc := c_racc s; c_rlimb := c_rlimb s |} in
+      let s2 :=
+        if Nat.eqb j 0 then
+          if negb ((a_tot - a_start_bit) mod ab =? 0) then
+            let take := (a_tot - a_start_bit) mod ab in
+            {| c_res := c_res s1; c_anorm := asr (c_anorm s1) take; c_acarry := c_acarry s1; c_rcarry := c_rcarry s1;
+               c_atake := c_atake s1 - take; c_racc := c_racc s1; c_rlimb := c_rlimb s1 |}
+          else if negb ((r_tot - res_start_bit) mod rb =? 0) then
+            {| c_res := c_res s1; c_anorm := c_anorm s1; c_acarry := c_acarry s1; c_rcarry := c_rcarry s1;
+               c_atake := c_atake s1; c_racc := c_racc s1 - (r_tot - res_start_bit) mod rb; c_rlimb := c_rlimb s1 |}
+          else s1
+        else s1 in
+      match cross_inner w fuel rb ab a_limb s2 with
+      | (s3, InnerDone) => (s3, false, false)
+      | (s3, OuterBreak) => (s3, true, false)
+      | (s3, Fuel) => (s3, false, true)
+      end) (seq 0 mid) (s0, false, false) in
+  if bad then None else
+  if Nat.eqb res_end 0 then Some (c_res s) else
+  let cu := if Nat.eqb a_start a_end then c_acarry s else c_rcarry s in
+  let cu' := if Nat.eqb a_start a_end && (lo <? 0)
+             then gapbits_phase w 8 (Z.min (Z.max (- lo * ab - r_tot) 0) 128) cu else cu in
+  Some (fst (top_phase w false rb 0 res_end (c_res s, cu'))).
+
+(* the big normaliser of backend family wb (64: FFT64, 128: NTT120) *)
+Definition normalize_big (wb : Z) (rb ab off : Z) (a r0 : list Z) : option (list Z) :=
+  if (wb =? 128) && negb (rb =? ab) then normalize_cross_ntt rb ab off a r0 else normalize wb rb ab off a r0.
+
 (* vec_znx_big_normalize (FFT64 accumulates in i64, NTT120 in i128; result limbs are i64) on one column *)
 Definition wbig (be : Z) : Z := if be <=? 2 then 64 else 128.
 Definition big_normalize (wb : Z) (n : nat) (rb ab : Z) (rsize : nat) (a : plimbs) : option plimbs :=
-  lift_coeff (fun al r => match normalize wb rb ab 0 al r with Some o => Some (map (wrap 64) o) | None => None end)
+  lift_coeff (fun al r => match normalize_big wb rb ab 0 al r with Some o => Some (map (wrap 64) o) | None => None end)
              n rsize a (repeat (pzero n) rsize).
 (* vec_znx_normalize on one column (fresh destination) *)
 Definition small_normalize (n : nat) (rb ab : Z) (rsize : nat) (a : plimbs) : option plimbs :=
@@ -155,7 +214,7 @@ Definition psum_list (n : nat) (l : list (list Z)) : list Z := fold_left padd l 
 Definition poly_val (P b : Z) (n : nat) (limbs : plimbs) : list Z :=
   fst (fold_left (fun (s : list Z * Z) l => (padd (fst s) (pscale (2 ^ (P - (snd s + 1) * b)) l), snd s + 1)) limbs (pzero n, 0)).
 
-(* phase s ct = ct[0] + sum_i ct[i+1] (*) s_i, scaled by 2^P, exact (not reduced) *)
+(* phase s ct = ct[0] + sum_i ct[i+1] (x) s_i, scaled by 2^P, exact (not reduced) *)
 Definition phase_val (P b : Z) (n : nat) (sk : list (list Z)) (ct : cols_t) : list Z :=
   fold_left (fun acc p => padd acc (pmul (poly_val P b n (fst p)) (snd p))) (combine (tl ct) sk) (poly_val P b n (col ct 0)).
 
@@ -177,7 +236,7 @@ Definition digit_bound (b : Z) (dsize : nat) : Z :=
    terms:
      gadget        rows * cin * N * Dgroup * Bkey,   Dgroup = D * sum_{t<dsize} 2^(t b)
      dropped tail  input limbs l >= dnum*dsize never meet a key row: cin * N * Ssrc * 2 D 2^(P - (dnum*dsize+1) b)  when a_size > dnum*dsize
-                   (Ssrc = sup norm of what the rows encrypt: s_in for a key-switch, m2 (*) (1, s) for an external product)
+                   (Ssrc = sup norm of what the rows encrypt: s_in for a key-switch, m2 (x) (1, s) for an external product)
      vmp limbs     for dsize >= 3 the product of digit di drops the last (dsize-di-2) limbs of the key row:
                    dsize^2 * rows * cin * N * (1 + rank_out N S) * D * 2^(b-1) * 2^(P - (msize - dsize + 1) b)
      body          add_small adds only min(msize, a_size) limbs of the body: 2 D 2^(P - (msize+1) b) when a_size > msize (key-switch only)
